@@ -134,6 +134,43 @@ mod verif_c15 {
         for k in 0..3 { assert!(o1.data()[k].p(0, 0) == o2.data()[k].p(0, 0), "stored config describes the encoding actually applied"); }
     }
 @LABEL@
+    // ---- label == content for every image size, observed at the interface between the stages instead of on pixels:
+    // the primaries the gamut stage is asked to convert to must be the primaries the output is labelled with.  The image has
+    // zero columns (so no pixel work at all) and a symbolic number of lines.
+    static mut SEEN_OUT_PRIMARIES: u8 = 255;
+    fn stub_transform_primaries(input: Vec<[f32; 3]>, _in_p: CP, out_p: CP) -> Result<Vec<[f32; 3]>, ConversionError> {
+        unsafe { SEEN_OUT_PRIMARIES = cp_idx(out_p); }
+        Ok(input)
+    }
+    fn stub_plane_new0<T: Pixel>(width: usize, height: usize, xdec: usize, ydec: usize, _xpad: usize, _ypad: usize) -> Plane<T> {
+        let buf = [T::cast_from(128u8); 1];
+        let mut p = Plane::from_slice(&buf, 1);
+        p.cfg.width = width; p.cfg.height = height; p.cfg.xdec = xdec; p.cfg.ydec = ydec;
+        p
+    }
+    #[kani::proof]
+    #[kani::unwind(602)]
+    #[kani::stub(crate::yuv_rgb::color::transform_primaries, stub_transform_primaries)]
+    #[kani::stub(v_frame::plane::Plane::new, stub_plane_new0)]
+    #[kani::stub(yuvxyb_math::matrix::Matrix::invert, yuvxyb_math::matrix::verif_stub_invert)]
+    fn k_c15_encode_primaries_match_label() {
+        let in_h: usize = kani::any();
+        kani::assume(in_h >= 1 && in_h <= 600);
+        let in_m: u8 = kani::any(); kani::assume(in_m < 15);
+        let mc = MC_ALL[in_m as usize];
+        kani::assume(matches!(mc, MC::BT709 | MC::BT470M | MC::BT470BG | MC::ST170M | MC::ST240M | MC::BT2020NonConstantLuminance | MC::YCgCo));
+        let c = YuvConfig { bit_depth: 8, subsampling_x: 0, subsampling_y: 0, full_range: false, matrix_coefficients: mc,
+            transfer_characteristics: TC::Linear, color_primaries: CP::Unspecified };
+        // 0 x h image: the heuristics see (width 0, height h); a transposed call would see (width h, height 0)
+        let o = Yuv::<u8>::try_from((LinearRgb::new(Vec::new(), 0, in_h).unwrap(), c)).unwrap();
+        let label = o.config().color_primaries;
+        let used = unsafe { SEEN_OUT_PRIMARIES };
+        assert!(label != CP::Unspecified, "never reports Unspecified");
+        assert!(used == cp_idx(label), "the gamut stage converts to the primaries the output is labelled with, at every image height");
+        assert!(o.width() == 0 && o.height() == in_h, "dimensions preserved");
+        kani::cover!(in_h == 480 && label == CP::ST170M, "480-line guess explored");
+        kani::cover!(in_h == 576 && label == CP::BT470BG, "576-line guess explored");
+    }
     /// label == content where the size heuristic depends on the orientation: a 1x480 image (concrete pixels: the solver's job here is
     /// the symbolic execution of the real resolution logic at a real 480-line size, not a search over pixels)
     #[kani::proof]
@@ -246,6 +283,10 @@ def plan(tier, seed):
             hs.append(dict(name="k_c15_label_content_xyb_t2_p%d" % cp, what="labelx", timeout=2400, mem_gb=16, tcx=2,
                            obligation="XYB -> YUV with Unspecified fields: label == content [primaries index %d]" % cp, sym="as above, source XYB",
                            covers=["conversion with Unspecified fields succeeded"]))
+    hs.append(dict(name="k_c15_encode_primaries_match_label", what="label480", timeout=1500, mem_gb=16,
+                   obligation="linear RGB -> YUV with Unspecified primaries: the primaries handed to the gamut stage equal the primaries stored in the output, for every image height 1..600 (observed at the stage interface on a zero-column image, so no pixel work is needed)",
+                   sym="image height: every value in 1..=600 (covers the 480/488/576 thresholds); matrix: symbolic over the 7 standard ones; width 0",
+                   covers=["480-line guess explored", "576-line guess explored"]))
     if thorough:
       hs.append(dict(name="k_c15_label_content_1x480", what="label480", timeout=10800, mem_gb=24,
                    obligation="label == content on a 1x480 / 480x1 image (where the primaries guess depends on which dimension is the height): re-encoding under the stored config gives identical samples; guessed primaries follow the real orientation",
